@@ -1,6 +1,7 @@
 import Hm.Response
 import Hm.ReqSys
 import Hm.C02
+import Hm.Coding
 
 def hexDigit (n : Nat) : Char := if n < 10 then Char.ofNat (48 + n) else Char.ofNat (87 + n)
 def hex (bs : Bytes) : String := String.ofList (bs.flatMap fun b => [hexDigit (b.toNat / 16), hexDigit (b.toNat % 16)])
@@ -118,6 +119,26 @@ def runRespSys : List Bytes → RespState → Bytes → List String → String
         s!" | c={st.statusCode} p={hex st.reasonPhrase} h={showHeaders st.headers} b={hex st.body} x={hex (st.trailer ++ trailing)}"
     | .ok .incomplete st n => runRespSys ds st (buf.drop n) (s!"I,{n}" :: acc)
 
+def parseHeaders (s : String) : Option (List Header) :=
+  if s = "." then some [] else
+  (s.splitOn ",").mapM fun e =>
+    match e.splitOn ":" with
+    | [k, v] => do let k ← unhex (if k = "" then "." else k); let v ← unhex (if v = "" then "." else v); pure ⟨k, v⟩
+    | _ => none
+
+/-- decoder oracle: answers recorded from the real crate's single-layer decoding -/
+def parseCodecTable (s : String) : Option (List (String × Bytes × Option Bytes)) :=
+  if s = "." then some [] else
+  (s.splitOn ",").mapM fun e =>
+    match e.splitOn "=" with
+    | [k, v] =>
+      match k.splitOn "/" with
+      | [tag, inp] => do
+        let inp ← unhex (if inp = "" then "." else inp)
+        if v = "!" then pure (tag, inp, none) else do let v ← unhex (if v = "" then "." else v); pure (tag, inp, some v)
+      | _ => none
+    | _ => none
+
 def step (line : String) : String :=
   match line.trimAscii.toString.splitOn " " with
   | ["REQ", tree, ov, rl, hl, mx, tbl, ds] =>
@@ -134,6 +155,18 @@ def step (line : String) : String :=
       if tree = "1" && hl.isNone then runRespSys ds Response.new [] []
       else runResp { hl := hl, ov := ov = "1", tree := ⟨tree = "1"⟩ } ds Response.new [] [] []
     | _, _ => "bad-op"
+  | ["DECODE", hs, body, tbl] =>
+    match parseHeaders hs, unhex body, parseCodecTable tbl with
+    | some hs, some body, some tbl =>
+      let look (tag : String) (x : Bytes) : Option Bytes :=
+        match tbl.find? (fun e => e.1 == tag && e.2.1 == x) with
+        | some e => e.2.2
+        | none => none
+      let r := decodeBody (look "G") (look "F") hs body
+      match r.2 with
+      | some out => s!"OK {hex out} | h={showHeaders r.1}"
+      | none => s!"ERR | h={showHeaders r.1}"
+    | _, _, _ => "bad-op"
   | _ => "bad-op"
 
 partial def loop (h : IO.FS.Stream) : IO Unit := do
